@@ -89,7 +89,116 @@ def decoder_key_table(facts, dec_ty, key_enum, sec):
                 table.setdefault(v, set()).update(fields)
     flows = {}
     H.walk(hfn['body'], visit)
+    adt = facts.adts.get(key_enum)
+    variants = [v['name'] for v in adt['variants']] if adt else []
+    if variants and any(not table.get(v) for v in variants):
+        # some key is not decided by an arm of `match key` that writes its field: the same table from the paths of the
+        # parser (selector helpers handing out `&mut` fields, `key == K` tests)
+        bt = key_table_by_paths(hfn, key_enum, variants)
+        if bt:
+            for v, fs in bt.items():
+                if fs and not table.get(v):
+                    table[v] = set(fs)
     return table, path
+
+
+def key_table_by_paths(hfn, key_enum, variants):
+    """variant -> state fields that may be written when the key is that variant, by symbolic evaluation of the
+    (inlined) parser: tests of the key are `match key { .. }` arms and `key == Variant` comparisons, in the parser or in
+    a selector helper (`state.text_field_mut(key) -> Option<&mut String>`: the reference each arm hands out is followed to
+    the write through it); any other test leaves both branches open"""
+    import symeval as SE
+
+    WRITERS = ('clone_into', 'push', 'push_str', 'extend', 'insert', 'clear', 'truncate')
+
+    def state_field(e):
+        e = H.peel(e)
+        while isinstance(e, dict) and e.get('k') in ('addr',) or (isinstance(e, dict) and e.get('k') == 'unary' and e.get('op') == 'Deref'):
+            e = H.peel(e['e'])
+        fc = H.field_chain(e) if isinstance(e, dict) else None
+        if fc and fc[0] == 'state' and fc[1]:
+            return tuple(fc[1])
+        return None
+
+    class Ev(SE.SymEval):
+        def note(self, env, fld):
+            env2 = dict(env)
+            env2['#w'] = tuple(env.get('#w', ())) + (fld,)
+            return env2
+
+        def scan(self, e, env):
+            hits = []
+
+            def v(n, anc):
+                if any(a.get('k') == 'closure' for a in anc):
+                    return
+                if n.get('k') == 'mcall' and n.get('name') in WRITERS:
+                    for arg in [n['recv']] + n['args']:
+                        f_ = state_field(self.subst(arg, env))
+                        if f_:
+                            hits.append(f_)
+            if isinstance(e, dict):
+                H.walk(e, v)
+            for f_ in hits:
+                env = self.note(env, f_)
+            return env if hits else None
+
+        def effect(self, st, env):
+            return self.scan(st, env)
+
+        def stmt(self, st, env, knext, kret, as_tail=None):
+            if isinstance(st, dict) and st.get('k') in ('assign', 'assignop'):
+                f_ = state_field(self.subst(st['l'], env))
+                if f_:
+                    env = self.note(env, f_)
+            elif isinstance(st, dict) and st.get('k') in ('slet', 'let') and 'init' in st and \
+                    not (isinstance(st['init'], dict) and st['init'].get('k') in ('if', 'match', 'block')):
+                e2 = self.scan(st['init'], env)
+                if e2 is not None:
+                    env = e2
+            return super().stmt(st, env, knext, kret, as_tail)
+    ev = Ev(None, budget=40000)
+    ev.track_let_blocks = True
+    body = hfn['body']
+    try:
+        tree = ev.seq(list(body.get('stmts', [])), body.get('expr'), {},
+                      lambda env, tail: ('v', {'k': 'end', 'w': (ev.scan(tail, env) or env).get('#w', ()) if tail is not None
+                                               else env.get('#w', ())}),
+                      kret=lambda vt, env=None: ('v', {'k': 'ret', 'w': (env or {}).get('#w', ())}))
+    except SE.Stop:
+        return None
+
+    def is_key(e):
+        e = H.peel(e)
+        return isinstance(e, dict) and e.get('k') == 'local' and e.get('name') == 'key'
+
+    def classify(c):
+        if c[0] == 'pat' and is_key(c[2]):
+            vs = []
+            _pat_variants(c[1], key_enum, vs)
+            return set(vs) if vs else None
+        if c[0] == 'e':
+            e = H.peel(c[1])
+            if isinstance(e, dict) and e.get('k') == 'binary' and e.get('op') in ('Eq', 'Ne'):
+                for x, y in ((e['a'], e['b']), (e['b'], e['a'])):
+                    y0 = H.peel(y)
+                    if is_key(x) and isinstance(y0, dict) and y0.get('k') == 'path' and y0.get('def', '').startswith(key_enum + '::'):
+                        return ({y0['name']}, e['op'] == 'Eq')
+        return None
+
+    def fields(t, var):
+        if t[0] == 'v':
+            return set(t[1].get('w', ())) if isinstance(t[1], dict) else set()
+        cl = classify(t[1])
+        if cl is None:
+            return fields(t[2], var) | fields(t[3], var)
+        if isinstance(cl, tuple):
+            vs, eq = cl
+            holds = (var in vs) == eq
+        else:
+            holds = var in cl
+        return fields(t[2] if holds else t[3], var)
+    return {v: fields(tree, v) for v in variants}
 
 
 def _fields_fed_by(hfn, name):
